@@ -1107,6 +1107,11 @@ C05_THEOREMS = ["Acv.C05.norm_ser", "Acv.C05.norm_ser_flat", "Acv.C05.exists_WF"
                 "Acv.C05.canonIndex_wellFormed", "Acv.C05.find_get_iff", "Acv.C05.find_types_iff", "Acv.C05.reserialisation_same_reads"]
 
 
+C05_CONTEXT_THEOREMS = ["Acv.C05.expand_spelling", "Acv.C05.expand_spelling_obj", "Acv.C05.norm_ser_ctx", "Acv.C05.norm_ser_ctx_doc",
+                        "Acv.C05.expand_spelling₀", "Acv.C05.norm_ser_ctx₀", "Acv.C05.renderings_agree", "Acv.C05.reserialisation_invariant_ctx",
+                        "Acv.C05.normC_ser", "Acv.C05.normC_eq_norm_arr", "Acv.C05.normC_eq_norm_obj", "Acv.C05.normC_wellFormed"]
+
+
 def check_C05(ctx):
     broken = []
     try:
@@ -1114,6 +1119,7 @@ def check_C05(ctx):
     except Broken as b:
         return conclude(ctx, [b])
     broken += prove(ctx, "Acv.Props.C05", C05_THEOREMS)
+    broken += prove(ctx, "Acv.Props.C05Context", C05_CONTEXT_THEOREMS)
     try:
         lines = gen_cases("c05", 60 if ctx.quick() else 500, ctx.seed * 1000 + 21)
         impl = run_impl(lines)
@@ -1160,7 +1166,7 @@ def check_C05(ctx):
     except Broken as b:
         broken.append(b)
     ctx.coverage["rule"] = ("random graphs (2..7 nodes, links incl. cycles and dangling refs, literals) each serialised 5 ways: flat, permuted with {@value}/bare/repeated values and string-or-array @type, embedded to depth 4 with nodes split across occurrences (twice), "
-                            "and with an @context (prefix-compacted IRIs, @base-relative ids); top-level array / @graph / single object; whitespace; 2 random profiles per graph. Checked: index equality with the flat form, verdict equality, and for context-free documents equality with the Lean norm model and the graph's canonical index")
+                            "and with an @context (prefix-compacted IRIs, @base-relative ids, @vocab-relative keys and classes, local names that are also built-in prefix names); top-level array / @graph / single object; whitespace; 2 random profiles + 1 uniqueValues profile per graph. Checked: index equality with the flat form, verdict equality, and for EVERY document equality of the real index with the Lean model (normC) and with the graph's canonical index")
     ctx.assumptions += ["json-gold outside the modelled fragment (@context/@base handling, @list, language maps, @reverse, blank nodes, remote contexts) is not modelled: @context documents are covered by the metamorphic comparison only; the rest is not claimed"]
     return conclude(ctx, broken, trusted=TRUST_COMMON)
 
